@@ -84,7 +84,22 @@ class Engine:
         from .tr import tuple_eq_axioms
         ax = smt.class_axioms() + pow_axioms() + strip_axioms() + heap_wf_axioms(self.h0) + tuple_eq_axioms()
         ax += self.axioms
+        for cls_name, (attr, file) in getattr(self.reg, "eq_by", {}).items():
+            from .tr import eq_by_axioms
+            self.check_eq_by(cls_name, attr, file)
+            ax += eq_by_axioms(cls_name, attr)
         return ax
+
+    def check_eq_by(self, cls_name, attr, file):
+        """the real class must define `__eq__` as `isinstance(other, <cls>) -> self.<attr> == other.<attr>` (else NotImplemented)"""
+        f = source.load_function(file, cls_name + ".__eq__")
+        body = [s for s in f.node.body if not (isinstance(s, ast.Expr) and isinstance(s.value, ast.Constant))]
+        want = "if isinstance(other, %s):\n    return self.%s == other.%s\nreturn NotImplemented" % (cls_name, attr, attr)
+        got = "\n".join(ast.unparse(s) for s in body)
+        if got != want:
+            raise CheckerError("eq_by(%s, %s): %s.__eq__ in %s is not the expected attribute comparison:\n%s" % (cls_name, attr, cls_name, file, got))
+        self.assumptions.add("%s.__eq__ (source checked on every run: compares `%s` only) is used as the meaning of == on two %s objects"
+                             % (cls_name, attr, cls_name))
 
     def feas_solver(self, scale=1, rel0=False):
         """solver for path pruning and type-directed translation: E-matching only (no MBQI), short timeout;
@@ -485,6 +500,9 @@ class Engine:
         if m is None:
             raise OutOfSubset("expression %s at line %s" % (type(e).__name__, getattr(e, "lineno", "?")))
         return m(e, ec)
+
+    def ev__Const(self, e, ec):
+        return e.val
 
     def ev_Constant(self, e, ec):
         c = e.value
@@ -2396,6 +2414,26 @@ class Engine:
         self.list_set_all(ec, r, na + nb, arr)
         return tV(V.none)
 
+    def me_index(self, recv, e, ec):
+        """xs.index(x): position of the FIRST item equal to x (Python ==), ValueError when there is none"""
+        v = toV(recv)
+        if len(e.args) != 1 or not self.must_g(ec, smt.is_kind(v, "list")):
+            return None
+        x = self.mat(self.ev(e.args[0], ec), ec)
+        h = ec.st.heap
+        r = V.rv(v)
+        n = h.llen(r)
+        arr = h.sel("lel", r)
+        j = z3.Int("j!")
+        from .tr import forall as _forall
+        eq_at = lambda idx: py_eq(tV(arr[idx]), x, h)
+        found = fresh("ix_found", BoolS)
+        i = fresh("ix_at", IntS)
+        ec.assume(found == z3.Exists([j], z3.And(j >= 0, j < n, eq_at(j))))
+        ec.may_raise(z3.Not(found), "ValueError", e.lineno, "list.index(x): x not in list")
+        ec.assume(z3.Implies(found, z3.And(i >= 0, i < n, eq_at(i), _forall([j], z3.Implies(z3.And(j >= 0, j < i), z3.Not(eq_at(j))), [arr[j]]))))
+        return T("i", i)
+
     def me_remove(self, recv, e, ec):
         """xs.remove(x): deletes the FIRST item equal to x (Python ==), ValueError when there is none"""
         v = toV(recv)
@@ -2789,6 +2827,7 @@ class Engine:
         """frame entries (`assigns` of a contract, `modifies` of a loop), read in state st with variables env:
              'x' / any expression        the object it evaluates to (shallow: its own attributes / items)
              "attr(expr, 'name')"        only the attribute / key `name` of that object
+             "vals(expr)"                only the values stored in that dict (its key set and key order stay)
            returns (object refs, [(ref, key V term)])"""
         objs, keyed = [], []
         for text in entries:
@@ -2799,6 +2838,9 @@ class Engine:
                 v = toV(self.ev(tree.args[0], ecm))
                 k = toV(self.ev(tree.args[1], ecm))
                 keyed.append((self.frame_ref(st, v), k))
+            elif isinstance(tree, ast.Call) and isinstance(tree.func, ast.Name) and tree.func.id == "vals" and len(tree.args) == 1:
+                # the VALUES stored in a dict (any key), not its key set / key order
+                keyed.append((self.frame_ref(st, toV(self.ev(tree.args[0], ecm))), None))
             else:
                 objs.append(self.frame_ref(st, toV(self.ev(tree, ecm))))
         return objs, keyed
@@ -2812,6 +2854,9 @@ class Engine:
             for n in HEAP_NAMES:
                 a[n] = z3.Store(a[n], r, fresh(n + "_at", HEAP_SORTS[n].range()))
         for r, k in keyed:
+            if k is None:
+                a["dval"] = z3.Store(a["dval"], r, fresh("dval_at", HEAP_SORTS["dval"].range()))
+                continue
             a["dhas"] = z3.Store(a["dhas"], r, z3.Store(Heap(a, h.alloc, st).sel("dhas", r), k, fresh("has_at", BoolS)))
             a["dval"] = z3.Store(a["dval"], r, z3.Store(Heap(a, h.alloc, st).sel("dval", r), k, fresh("val_at", V)))
             for n in ("dlen", "dkey", "didx"):
@@ -2884,7 +2929,12 @@ class Engine:
             if desc["assigns"]:
                 self.havoc_heap(ec.st, desc["assigns"], oenv, e.lineno)
         elif not desc.get("pure"):
-            self.havoc_heap(ec.st, ["*"], {}, e.lineno, keep=self.ghost_refs(ec))
+            keep = list(self.ghost_refs(ec))
+            for ln_ in desc.get("keep_locals", []):
+                # ASSUMED: the callee cannot reach this local object of the caller (listed in the note of the opaque declaration)
+                if ln_ in ec.st.env and ec.st.env[ln_].k == "V":
+                    keep.append(V.rv(ec.st.env[ln_].t))
+            self.havoc_heap(ec.st, ["*"], {}, e.lineno, keep=keep)
         kind = desc.get("result", "V")
         res = T(kind, fresh("opq_" + name, KIND_SORT[kind]))
         if desc.get("fn"):
@@ -2904,6 +2954,12 @@ class Engine:
             res = tV(V.ref(r))
         if desc.get("result_allocated", True) and kind == "V" and not desc.get("result_class") and not desc.get("fn"):
             ec.st.assume(z3.Implies(is_ref(res.t), z3.And(V.rv(res.t) >= 0, V.rv(res.t) < ec.st.heap.alloc)))
+        if desc.get("log_result"):
+            g = ec.st.env[desc["log_result"]]
+            r = V.rv(g.t)
+            h = ec.st.heap
+            n = h.llen(r)
+            self.list_set_all(ec, r, n + 1, z3.Store(h.sel("lel", r), n, toV(res)))
         if desc.get("ensures"):
             # assumed postcondition (an ASSUMED contract of library code: listed in the evidence)
             oenv2 = dict(oenv)
